@@ -71,12 +71,76 @@ def check_session(s: MemSession, model: Model, res: Result, label: str) -> None:
         op = s.log[idx][0]
         res.dist[op["op"]] += 1
         res.note((op["op"], len(bel), len({c for c, _ in bel})), sample={"label": label, "ops": ops[:6]} if len(res.samples) < 2 else None)
-        if ans != "true" and (first_bad is None or idx <= first_bad):
+        if ans != "true":
             dup = [i for _, i in bel if sum(1 for _, j in bel if j == i) > 1]
             trig = F3 if dup and all(i in s.stolen for i in dup) else None
             res.bad("impl", "Pred.C14.singleHolder after a call", case={"label": label, "ops": ops[: idx + 1], "believes": bel},
                     observed=ans, expected="true", finding=trig)
             break
+
+
+async def concurrent_round(rng: Rng) -> dict:
+    """Several consumers of one queue call consume() CONCURRENTLY (same loop turn), with immediate and
+    just-due delayed messages present; repeated for a few rounds with random disposals in between."""
+    import asyncio
+    s = MemSession()
+    await s.declare("q0")
+    ncons = rng.choice([2, 3, 4])
+    for c in range(ncons):
+        await s.start(c, "q0", "NORMAL", None)
+    believes: list[tuple[int, str]] = []
+    history = []
+    nid = 0
+    for rnd in range(rng.choice([2, 3, 4])):
+        for _ in range(rng.choice([1, 2, 3, 5])):
+            nid += 1
+            pd = {"ts": CLOCK.us}
+            r = rng.random()
+            if r < 0.5:
+                pd["next"] = CLOCK.us + rng.choice([-1, 0, 200_000, 700_000])
+            await s.enqueue("q0", f"m{nid}", "ta", f"p{nid}", pd)
+        CLOCK.advance(rng.choice([1, 300_000, 1_000_001]))
+
+        async def one(c):
+            try:
+                key, _, _ = await asyncio.wait_for(s.consumers[c].consume(), timeout=rng.choice([0.0025, 0.0055]))
+                return (c, key.id_)
+            except asyncio.TimeoutError:
+                return None
+        got = [g for g in await asyncio.gather(*[one(c) for c in range(ncons)]) if g]
+        believes.extend(got)
+        history.append({"round": rnd, "delivered": got})
+        # holders dispose of some of what they hold
+        for (c, i) in list(believes):
+            if rng.random() < 0.6:
+                kind = rng.choice(["ack", "reject", "nack"])
+                from repid.data._key import RoutingKey
+                await getattr(s.broker, kind)(RoutingKey(topic="ta", queue="q0", priority=5, id_=i))
+                believes = [b for b in believes if b != (c, i)]
+        history[-1]["believes_after"] = list(believes)
+        history[-1]["snapshot"] = memrun.snap_ids(s.broker, "q0")
+    return {"ncons": ncons, "history": history}
+
+
+def check_concurrent(o: dict, model: Model, res: Result, label: str) -> None:
+    reqs = []
+    for h in o["history"]:
+        prior = []
+        reqs.append(sx([A("c14.singleHolder"), [[c, i] for c, i in h["delivered"]] ]))
+        reqs.append(sx([A("c14.singleHolder"), [[c, i] for c, i in h["believes_after"]]]))
+    answers = model.ask(reqs)
+    res.extra["model_requests"] = res.extra.get("model_requests", 0) + len(answers)
+    for n, h in enumerate(o["history"]):
+        res.dist["concurrent-round"] += 1
+        res.note(("concurrent", o["ncons"], len(h["delivered"]), n))
+        snap = h["snapshot"]
+        flat = snap["simple"] + [i for _, ids in snap["delayed"] for i in ids] + snap["dead"] + snap["processing"]
+        dup = sorted({i for i in flat if flat.count(i) > 1})
+        if answers[2 * n] != "true" or answers[2 * n + 1] != "true" or dup:
+            res.bad("impl", "one message delivered to two consumers in concurrent consume() calls (or duplicated in the queue)",
+                    case={"label": label, "consumers": o["ncons"], "history": o["history"][: n + 1]},
+                    observed={"delivered": h["delivered"], "duplicates_in_queue": dup}, expected="each id to at most one consumer")
+            return
 
 
 def run(ctx) -> Result:
@@ -90,6 +154,10 @@ def run(ctx) -> Result:
         rng = Rng(seed, f"c14/{i}")
         s = vtime.run(lambda loop, r=rng: multi_session(r, 80 if deep else 45), budget=500_000)
         check_session(s, model, res, f"multi-{seed}-{i}")
+    for i in range(300 if deep else 60):
+        rng = Rng(seed, f"c14/conc/{i}")
+        o = vtime.run(lambda loop, r=rng: concurrent_round(r), budget=500_000)
+        check_concurrent(o, model, res, f"concurrent-{seed}-{i}")
     return res
 
 
